@@ -21,6 +21,16 @@
  * A statement about (g_cw_blk, g_cw_off) is a statement about every byte of every block. */
 #ifndef VERIF_HASH_SPEC_H
 #define VERIF_HASH_SPEC_H
+/* The hash units do not touch curve arithmetic: shrink the (extern, hence unconstrained) precomputed
+ * tables so that 8 MB of nondet table entries are not bit-blasted into every query (saves ~25 s per
+ * unit).  src/hash_impl.h does not depend on these macros. */
+#include "cfg.h"
+#undef ECMULT_WINDOW_SIZE
+#define ECMULT_WINDOW_SIZE 2
+#undef COMB_BLOCKS
+#define COMB_BLOCKS 2
+#undef COMB_TEETH
+#define COMB_TEETH 5
 #include "pre.h"
 
 #ifndef VERIF_NATIVE
@@ -52,10 +62,18 @@ static void verif_compress(uint32_t *s, const unsigned char *blocks, size_t n) {
 #endif
 }
 
-/* memcpy model for the hash units.  CBMC's built-in model of a symbolic-length memcpy (array_replace of a
- * variable-length array into a struct member) does not get through propositional reduction here.
- * Every memcpy in the hashing code copies at most 64 bytes; this model is exact for n <= MEMCPY_MAX and
- * the bound is itself an obligation.  Reads and writes are individually pointer-checked.
+/* memcpy model for the hash units that keep memcpy-ing code real (hash_write.c, hash_finalize.c).
+ * Measured: with CBMC's built-in model (array_replace of a variable-length array into a struct member) or
+ * with a plain byte loop, the symbolic-offset copies into hash->buf from a symbolic-size source cost
+ * 10^7 clauses (whole-struct byte_updates + quadratic array-read consistency constraints) and the
+ * stream lemma does not finish in 10 min.  Model used instead (an over-approximation of memcpy, hence
+ * sound; every memcpy of the hashing code copies <= 64 bytes):
+ *  - destination inside the harness-designated object g_mc_base (the secp256k1_sha256 under test):
+ *    every byte of [dst, dst+n) is overwritten, at a constant object offset; the byte at the WATCHED
+ *    object offset g_mc_doff (ghost selector, unconstrained in the harness) receives the source byte,
+ *    the other bytes of the range receive arbitrary values; bytes outside the range are untouched;
+ *  - any other destination (small local arrays): exact byte loop, n <= MEMCPY_MAX is an obligation.
+ * Obligations: n <= 64, distinct objects, destination range writable, source byte readable.
  * Use: #define VERIF_MEMCPY_MODEL before this header, then
  *      #define memcpy verif_memcpy64   /  #include "src/secp256k1.c"  /  #undef memcpy
  * so that only the repository's calls are redirected. */
@@ -63,9 +81,26 @@ static void verif_compress(uint32_t *s, const unsigned char *blocks, size_t n) {
 #ifndef MEMCPY_MAX
 #define MEMCPY_MAX 64
 #endif
+#ifndef MC_OBJ_SIZE
+#define MC_OBJ_SIZE sizeof(secp256k1_sha256)
+#endif
+unsigned char *g_mc_base; size_t g_mc_doff; int g_mc_calls;
+unsigned char nondet_uchar_mc(void);
 static void *verif_memcpy64(void *dst, const void *src, size_t n) {
     unsigned char *d_ = dst; const unsigned char *s_ = src; size_t i_;
     __CPROVER_assert(n <= MEMCPY_MAX, "C05 memcpy model: length within the modelled bound");
+    __CPROVER_assert(n == 0 || !__CPROVER_same_object(dst, src), "C05 memcpy model: source and destination are different objects");
+    __CPROVER_assert(n == 0 || __CPROVER_r_ok(src, n), "C05 memcpy model: source range is readable");
+    g_mc_calls++;
+    if (g_mc_base != NULL && __CPROVER_same_object(dst, g_mc_base)) {
+        size_t off_ = __CPROVER_POINTER_OFFSET(dst);
+        unsigned char w_ = 0;
+        __CPROVER_assert(__CPROVER_OBJECT_SIZE(dst) == MC_OBJ_SIZE && __CPROVER_POINTER_OFFSET(g_mc_base) == 0, "C05 memcpy model: designated object has the modelled size");
+        __CPROVER_assert(n == 0 || __CPROVER_w_ok(dst, n), "C05 memcpy model: destination range is writable");
+        if (g_mc_doff >= off_ && g_mc_doff - off_ < n) w_ = s_[g_mc_doff - off_];
+        for (i_ = 0; i_ < MC_OBJ_SIZE; i_++) if (i_ >= off_ && i_ - off_ < n) g_mc_base[i_] = (i_ == g_mc_doff) ? w_ : nondet_uchar_mc();
+        return dst;
+    }
     for (i_ = 0; i_ < MEMCPY_MAX; i_++) if (i_ < n) d_[i_] = s_[i_];
     return dst;
 }
